@@ -808,6 +808,18 @@ func (s *Silences) indexSilence(sil *pb.Silence) {
 	}
 }
 
+// reindexSilence moves an already indexed silence to a new version.
+// Must be called while holding s.mtx.
+func (s *Silences) reindexSilence(sil *pb.Silence) {
+	for i, sv := range s.vi {
+		if sv.id == sil.Id {
+			s.vi = append(s.vi[:i], s.vi[i+1:]...)
+			break
+		}
+	}
+	s.indexSilence(sil)
+}
+
 func (s *Silences) getSilence(id string) (*pb.Silence, bool) {
 	msil, ok := s.st[id]
 	if !ok {
@@ -1315,6 +1327,11 @@ func (s *Silences) Merge(b []byte) error {
 		if merged {
 			if added {
 				s.indexSilence(e.Silence)
+			} else {
+				// An existing silence changed (e.g. it was extended, or revived after it
+				// had expired locally): give it a new version so that incremental readers
+				// (QSince) see it again.
+				s.reindexSilence(e.Silence)
 			}
 			if !cluster.OversizedMessage(b) {
 				// If this is the first we've seen the message and it's
